@@ -92,22 +92,25 @@ class Decider:
         xs += [self.term(b) for b in bad if b is not False]
         return self.model_of(['(or false %s)' % ' '.join(xs)])
 
-    def audit(self, batch=400):
+    def audit(self, batch=400, budget_s=420):
         """re-prove the simplifier's rewrites  gate(children) == representative  (under the care set), un-folded.
-        Returns dict(total=<rewrites performed>, checked=<re-proved>, full=<bool>, failed=<n>)"""
+        A batch the solver answers `sat` on is a FAILED lemma (the run becomes inconclusive).  A batch it times out on is split
+        and retried while the time budget lasts; what is still open when the budget is spent is reported as `unproved`
+        (an incomplete audit, stated in the evidence - not a failed one).
+        Returns dict(total=<rewrites performed>, checked=<re-proved>, full=<bool>, failed=<n>, unproved=<n>)"""
         lem = self.lemmas
         full = self.n_lemmas == len(lem)
         if not full and len(lem) > AUDIT_SAMPLE:
             lem = lem[:AUDIT_SAMPLE]
         if not full:
             lem = self.must[:4000] + lem       # loop-terminating folds (unwinding assertions) are always included
-        failed = 0
         t0 = time.time()
-        unknown = 0
+        st = dict(failed=0, unproved=0, proved=0)
 
         def prove(part):
-            """'unsat' batch = every lemma of it re-proved; an `unknown` batch (solver timeout) is split and retried"""
-            nonlocal failed, unknown
+            if time.time() - t0 > budget_s:
+                st['unproved'] += len(part)
+                return
             terms = []
             for (op, args, res) in part:
                 for a in args:
@@ -120,18 +123,20 @@ class Decider:
                 return
             r = self._q(['(or false %s)' % ' '.join(terms)])
             if r == 'unsat':
-                return
-            if r == 'sat' or len(part) <= 25:
-                failed += 1
-                unknown += r != 'sat'
-                return
-            h = len(part) // 2
-            prove(part[:h])
-            prove(part[h:])
+                st['proved'] += len(part)
+            elif r == 'sat':
+                st['failed'] += 1
+            elif len(part) <= 25:
+                st['unproved'] += len(part)
+            else:
+                h = len(part) // 2
+                prove(part[:h])
+                prove(part[h:])
 
         for i in range(0, len(lem), batch):
             prove(lem[i:i + batch])
-        return dict(unknown_batches=unknown, total=self.n_lemmas, checked=len(lem), full=full, loop_exit_folds=len(self.must), failed=failed, secs=round(time.time() - t0, 2))
+        return dict(total=self.n_lemmas, checked=st['proved'], sampled=len(lem), full=full and not st['unproved'], loop_exit_folds=len(self.must),
+                    failed=st['failed'], unproved=st['unproved'], secs=round(time.time() - t0, 2))
 
     def cross(self, timeout=180):
         return cross_check(self.smt, timeout)
